@@ -39,7 +39,7 @@ class _T:
 class Scheduler:
     current_sched = None
 
-    def __init__(self, strategy, max_steps=20000, eps=0.0, trace_files=(), wait_eps=0.0):
+    def __init__(self, strategy, max_steps=20000, eps=0.0, trace_files=(), wait_eps=0.0, yield_on_time=False):
         self.strategy = strategy
         self.max_steps = max_steps
         self.threads = {}
@@ -61,6 +61,7 @@ class Scheduler:
         self.stopped = False
         self.counter = 0
         self.setup_phase = False    # deterministic, unrecorded scheduling while True
+        self.yield_on_time = yield_on_time   # reading the clock is a possible preemption point
 
     # ------------------------------------------------------------ thread identity
     def me(self):
@@ -222,6 +223,8 @@ class Scheduler:
 
     # ------------------------------------------------------------ time
     def time(self):
+        if self.yield_on_time and self.me() is not None and not self.aborting:
+            self.yield_('time')
         self.now += self.eps
         return self.now
 
@@ -327,6 +330,9 @@ class DEvent:
             s.yield_('ev.set')
 
     def clear(self):
+        s = S()
+        if s and s.yield_on_time and s.me() is not None and not s.aborting:
+            s.yield_('ev.clear')
         self.flag = False
 
     def wait(self, timeout=None):
